@@ -6,7 +6,7 @@ LEVEL_NOTE = ("assumes: the format's query methods do not modify the format (bou
 from .C05_structural import structural  # noqa: F401
 from . import token_contracts as tc
 from . import C05_contracts as c5
-TARGETS = [tc.M_ARGV + ":ArgvArgs.__init__", {"qual": c5.M_CMD + ":Command.parse", "tag": "mode"}]
+TARGETS = [tc.M_ARGV + ":ArgvArgs.__init__", tc.ARGV_EMPTY, {"qual": c5.M_CMD + ":Command.parse", "tag": "mode"}]
 LEMMAS = []
 try:
     from .C05_bounded import bounded, BOUNDED_RULE  # noqa: F401
